@@ -4,6 +4,7 @@
 set -u
 VERIF=/verif
 export CARGO_NET_OFFLINE=true
+unset CARGO_TARGET_DIR
 export CARGO_TERM_COLOR=never
 Q=$VERIF/harness/qshuttle
 "$Q/gen.sh" || exit 2
